@@ -27,6 +27,8 @@ func runC02(c *Ctx) {
 	ruleU6(c, "U6")
 	r.Rule("U7", "a kind change drops the old children before the new kind is stored", 1)
 	ruleU7(c, "U7")
+	r.Rule("U8", "the assignment primitives write value and presentation attributes only", 2)
+	ruleU8(c, "U8")
 	ruleL1(c, "L1", 20)
 	ruleR1(c, "R1", nil)
 }
@@ -43,6 +45,10 @@ func runC07(c *Ctx) {
 	ruleP2(c, "P2")
 	ruleY3(c, "P3")
 	ruleK(c, "", "P3", "")
+	r.Rule("P8", "the assignment primitives write value and presentation attributes only (never position, provenance or the document header)", 2)
+	ruleU8(c, "P8")
+	r.Rule("P7", "string-tagged keys are never parsed as numbers on their way into a path (delete addresses entries by it)", 1)
+	ruleK5(c, "P7")
 	// operators inside the right-hand side of an update must not write the document
 	r.Rule("P5", "pure operators (the value side of an update) do not write nodes of the document", 80)
 	ruleX1(c, "P5")
@@ -80,6 +86,8 @@ func runC03(c *Ctx) {
 	ruleX1(c, "D2")
 	ruleK(c, "K1", "K2", "")
 	ruleK1w(c, "K4", 12)
+	r.Rule("K5", "string-tagged keys are never parsed as numbers on their way into a path", 1)
+	ruleK5(c, "K5")
 	dropEmptyRule(r)
 }
 
@@ -143,6 +151,8 @@ func runC04(c *Ctx) {
 	ruleM8(c, "M8")
 	r.Rule("M9", "a kind change drops the old children before the new kind is stored", 1)
 	ruleU7(c, "M9")
+	r.Rule("M11", "string-tagged keys are never parsed as numbers on their way into a path", 1)
+	ruleK5(c, "M11")
 	r.Rule("M10", "merge applies every descendant of the right operand except merge-key entries", 1)
 	ruleNoFilter(c, "M10", "mergeObjects", map[string]bool{"applyAssignment": true}, func(cond ssa.Value, elem ssa.Value) bool {
 		return isTagEquals(cond, elem, "!!merge")
@@ -156,4 +166,6 @@ func runC16(c *Ctx) {
 	r.Rule("K3", "key / path / parent read only the recorded position attributes", 3)
 	ruleK(c, "K1", "K2", "K3")
 	ruleK1w(c, "K4", 12)
+	r.Rule("K5", "string-tagged keys are never parsed as numbers on their way into a path", 1)
+	ruleK5(c, "K5")
 }
